@@ -22,6 +22,13 @@ def op_aeskey(r):
     return "aeskey %s" % hx(r.bytes(r.choice([16, 32])))
 
 
+def op_aeskeybad(r):
+    """the AES-NI key expansion called directly with a key length it must refuse; the key buffer is long enough for any
+    prefix the code may look at before it refuses (at least 32 bytes, at least the stated length)"""
+    ln = r.choice([24, 24, 20, 33, 48, 64, 17, 31, 8, 0])
+    return "aeskeybad %s %d" % (hx(r.bytes(max(ln, 32) + r.choice([0, 0, 1, 16]))), ln)
+
+
 def op_aesctr(r):
     chunks = [hx(r.bytes(r.choice([0, 1, 15, 16, 17, 31, 32, 33, 100]))) for _ in range(r.range(1, 4))]
     return "aesctr %s %d %d %s" % (hx(r.bytes(r.choice([16, 32]))), r.below(1 << 62), r.below(2), " ".join(chunks))
@@ -114,6 +121,8 @@ def gen_wipe(rng, tier, mult, n=None, focus=None):
             k = r.below(100)
             if focus == "keys" and k >= 30:
                 k = 90
+            if r.chance(1, 25):
+                k = 100
             if k < 6:
                 # util/insecure_memzero.c itself: every alignment, lengths that are not multiples of the word size
                 ops.append("memzero %d %d" % (r.range(0, 15), r.choice([0, 1, 2, 3, 4, 5, 6, 7, 8, 9, 15, 16, 17, 31, 33, 63, 65, r.range(0, 300)])))
@@ -127,6 +136,8 @@ def gen_wipe(rng, tier, mult, n=None, focus=None):
                 ops.append(op_aeskey(r))
             elif k < 60:
                 ops.append(op_aesctr(r))
+            elif k == 100:
+                ops.append(op_aeskeybad(r))
             elif k < 85:
                 pub = "-" if r.chance(1, 2) else hx(r.bytes(256))
                 z = 0 if r.chance(4, 5) else r.range(1, 24)          # leading zero bytes sometimes
@@ -179,6 +190,10 @@ def classify(case, out):
                 tags.append("readkeys_longer_line_after_secret")
             if len(w[1]) < 16:
                 tags.append("readkeys_secret_shorter_than_8")
+        if w[0] == "aeskeybad":
+            l2 = res.split(" | ")[-1]
+            tags.append("aeskeybad_skipped" if "skipped" in l2 else
+                        "aeskeybad_released_block_inspected" if "checked=0" not in l2 else "aeskeybad_nothing_released")
         if w[0] == "aesmode":
             tags.append("aes_" + res.split(" | ")[0].replace(" ", "_"))
     return tags
@@ -193,14 +208,18 @@ def components(ctx):
              "DH generate_pub/compute with random and leading-zero private values, entropy failure, and failure of the k-th OpenSSL "
              "allocation for k in 1..60 (every rung of the BIGNUM error ladder); key files that fail after the secret line "
              "(garbage, duplicate, unknown key, missing id, missing EOL, over-long line), lines of 100..3000 characters before / after "
-             "the secret line (also as the failing line), secrets of 1..200 characters. Every case is non-trivial; distinct by hash.",
+             "the secret line (also as the failing line), secrets of 1..200 characters; 1 op in 25: the AES-NI key expansion called "
+             "directly with an unsupported key length (24, 20, 33, 48, 64, 17, 31, 8, 0; key buffer >= 32 bytes), every 8-byte window "
+             "of the raw key armed: the half-built object released on the error path must hold none. Every case is non-trivial; "
+             "distinct by hash.",
         classify=classify, ldflags=LDFLAGS, sanitize=False, opt="-O2", ignore_l2=True,
         env={"HWIPE_TMP": tmp}),
         vlib.Component(
         "wipeall", "h_wipe.c", SRCS, ["wipe"], gen_keys,
         nontrivial=lambda c: True,
         rule="the same operations in an AddressSanitizer build, where __sanitizer_free_hook shows EVERY block released while a secret "
-             "is armed (also blocks released inside libc, e.g. by getline/realloc moving a line buffer); 70% key files.",
+             "is armed (also blocks released inside libc, e.g. by getline/realloc moving a line buffer); 70% key files; 1 op in 25 "
+             "aeskeybad (unsupported key length handed to crypto_aes_key_expand_aesni).",
         classify=classify, ldflags=LDFLAGS, ignore_l2=True, env={"HWIPE_TMP": tmp}),
         vlib.Component(
         "wipesoft", "h_wipe.c", SRCS, ["wipe"], gen_soft,
